@@ -176,9 +176,8 @@ def u_edges(F=2, V=None, contact=None, template=None, ordered=False):
                     obs.append(holds(f'face {i} edge index in range', False))
                 else:
                     obs.append(holds(f'face {i} maps to its own edges', und(a, b, E[idx][0], E[idx][1])))
-        # boundary loops: every boundary edge exactly once over all loops, as consecutive (cyclic) vertices.  With
-        # inconsistent winding directed boundary cycles need not exist, so there only the weaker clauses are asked:
-        # every boundary edge exactly once among the cyclic steps, and every non-closing step is a boundary edge.
+        # boundary loops: every boundary edge exactly once over all loops, as consecutive (cyclic) vertices of closed cycles -
+        # for consistent and inconsistent winding alike (the property names both)
         steps = []
         open_steps = []
         for lp in loops.items:
@@ -187,14 +186,14 @@ def u_edges(F=2, V=None, contact=None, template=None, ordered=False):
                 steps.append((L[k], L[(k + 1) % len(L)]))
                 if k + 1 < len(L):
                     open_steps.append((L[k], L[k + 1]))
-            obs.append(holds('a loop has at least three vertices', z3.Implies(consistent, z3.BoolVal(len(L) >= 3))))
+            obs.append(holds('a loop has at least three vertices', z3.BoolVal(len(L) >= 3)))
         for (a, b, _i) in dir_edges:
             is_b = mult(a, b) == 1
             obs.append(holds('each boundary edge is in exactly one loop, once', z3.Implies(is_b, cnt([und(a, b, c, d) for (c, d) in steps]) == 1)))
         for (c, d) in open_steps:
             obs.append(holds('loop steps are boundary edges', z3.Or([z3.And(und(a, b, c, d), mult(a, b) == 1) for (a, b, _i) in dir_edges])))
         for (c, d) in steps:
-            obs.append(holds('closing steps of loops are boundary edges (consistent winding)', z3.Implies(consistent, z3.Or([z3.And(und(a, b, c, d), mult(a, b) == 1) for (a, b, _i) in dir_edges]))))
+            obs.append(holds('every step of a loop, the closing one included, is a boundary edge (closed vertex cycles)', z3.Or([z3.And(und(a, b, c, d), mult(a, b) == 1) for (a, b, _i) in dir_edges])))
         return obs
 
     nb = 2 * 3 * F + 4
@@ -245,8 +244,8 @@ def j_edges(o, rep, out):
         return 'a loop runs along an edge that is not a boundary edge' + ('' if consistent else ' (inconsistent winding)')
     if any(steps[e] != 1 for e in bnd):
         return 'boundary loops do not cover the boundary edges exactly once' + ('' if consistent else ' (inconsistent winding)')
-    if consistent and steps != bnd:
-        return 'boundary loops are not closed cycles of boundary edges'
+    if steps != bnd or any(len(L) < 3 for L in r['loops']):
+        return 'boundary loops are not closed cycles of boundary edges' + ('' if consistent else ' (inconsistent winding)')
     return False
 
 
